@@ -71,6 +71,12 @@ def emit_members(tab, eq_excluded=None, supersig=None, switch=None):
     out.append("Definition add_signature : list (string * string) := %s." % emit_sig(sigs.get("add", [])))
     out.append("Definition factory_signature : list (string * string) := %s." % emit_sig(sigs.get("component_factory", [])))
     out.append("Definition class_level_attrs : list string := %s." % coq_list([coq_str(x) for x in (supersig or {}).get("class_attrs", [])]))
+    ss = supersig or {}
+    out.append("Definition add_loops : list string := %s." % coq_list([coq_str(x) for x in ss.get("add_loops", [])]))
+    out.append("Definition hint_loops : list string := %s." % coq_list([coq_str(x) for x in ss.get("hint_loops", [])]))
+    out.append("Definition validate_default_recursive : string := %s." % coq_str(ss.get("validate_default_recursive", "missing")))
+    out.append("Definition validate_sites : list (string * string) := %s." % coq_list(
+        ["(%s, %s)" % (coq_str(a), coq_str(b_)) for a, b_ in ss.get("validate_sites", [])]))
     # shape of the global switch: build_time_validation.py and the helpers of neuroml/__init__.py (translators/tr_switch.py)
     sw = switch or {}
     strs = lambda l: coq_list([coq_str(x) for x in l])  # noqa
